@@ -145,7 +145,7 @@ func vC02Mac(freeName, freeValue, freeTS bool, sigKind int, otherSeed, extraPart
 }
 
 // one field tampered at a time
-// verif: unwind=8 strlen=6 concretize=4 paths=4000 abstractlen novalidate tstrlen=7
+// verif: unwind=8 strlen=6 concretize=4 paths=4000 abstractlen novalidate tstrlen=7 also=C09
 func vh_C02_mac_one() {
 	switch ndChoice("tamper", 9) {
 	case 0:
